@@ -6,6 +6,7 @@ import PlcModel.Cli
 import PlcModel.Decode
 import PlcModel.Parse.Pou
 import PlcModel.Render
+import PlcModel.Total
 
 /-!
 # plcdrv: line protocol driver for the executable model
@@ -303,6 +304,11 @@ def handle (line : String) : String :=
         | .ok sx => "OK " ++ sx.render
         | .error c => "ERR " ++ c)
     | none => "bad-arg"
+  | ["sublt", an, a, bn, b] =>
+    -- `is_less_than` of the subrange limits rule on (sign, magnitude) pairs
+    match a.toNat?, b.toNat? with
+    | some x, some y => if Total.isLessThan (an == "1") x (bn == "1") y then "1" else "0"
+    | _, _ => "bad-arg"
   | ["render", h] =>
     -- parser mirror, then the renderer model; answer: the text (hex) whose lexemes are compared
     match unhexText h with
